@@ -55,6 +55,10 @@ class Ops:
         self.assume(f)
     return SV(sort, t)
 
+  def entails(self, f):
+    """pc |= f (quantifier-free part, quick)"""
+    return not self.feasible(z3.Not(f))
+
   # ---- coercion ------------------------------------------------------------------------
   def coerce(self, v, sort):
     """Represent python value v in type model `sort`."""
@@ -69,6 +73,8 @@ class Ops:
       return v
     if isinstance(v, SV) and isinstance(v.sort, Union) and not isinstance(sort, Union) and not self.spec_mode:
       return self.coerce(self.unwrap(v), sort)
+    if v is NONEV and getattr(sort, 'nullable', False) and hasattr(sort, 'literal') and not isinstance(sort, Opaque):
+      return SV(sort, sort.literal(None))
     if v is NONEV and isinstance(sort, Opaque) and sort.nullable:
       return SV(sort, sort.literal(None))
     if isinstance(v, Lit):
@@ -209,6 +215,11 @@ class Ops:
         if self.spec_mode:
           raise OutsideSubset('truthiness of a union in spec mode')
         return self.truthy(self.unwrap(v))
+      if getattr(s, 'nullable', False) and hasattr(s, 'literal') and getattr(s, 'truthy', None) is None:
+        # objects are truthy unless None (classes in the subset define no __bool__/__len__)
+        return v.t != s.literal(None)
+      if hasattr(s, 'fields') and not isinstance(s, Union):
+        return zbool(True)
       if isinstance(s, Opaque):
         if getattr(s, 'truthy', None) is not None:
           return s.truthy(v.t)
@@ -272,14 +283,14 @@ class Ops:
         return zbool(True)
       i = z3.Int(fresh_name('i'))
       return z3.And(s.len(x) == s.len(y),
-                    z3.ForAll([i], z3.Implies(z3.And(i >= 0, i < s.len(x)), self.sort_eq(s.elem, s.get(x, i), s.get(y, i))),
+                    qforall([i], z3.Implies(z3.And(i >= 0, i < s.len(x)), self.sort_eq(s.elem, s.get(x, i), s.get(y, i))),
                               patterns=[s.get(x, i), s.get(y, i)]))
     if isinstance(s, MapOf):
       if z3.eq(x, y):
         return zbool(True)
       k = z3.Const(fresh_name('k'), s.key.z3())
       return z3.And(s.dom(x) == s.dom(y),
-                    z3.ForAll([k], z3.Implies(s.has(x, k), self.sort_eq(s.val, s.get(x, k), s.get(y, k))),
+                    qforall([k], z3.Implies(s.has(x, k), self.sort_eq(s.val, s.get(x, k), s.get(y, k))),
                               patterns=[s.get(x, k), s.get(y, k)]))
     return x == y
 
@@ -314,12 +325,12 @@ class Ops:
       o = a if b is NONEV else b
       if o is NONEV:
         return zbool(True)
-      if isinstance(o, SV) and isinstance(o.sort, Opaque) and o.sort.nullable:
+      if isinstance(o, SV) and getattr(o.sort, 'nullable', False) and hasattr(o.sort, 'literal'):
         return o.t == o.sort.literal(None)
       if isinstance(o, SV) and isinstance(o.sort, NoneSort):
         return zbool(True)
       return zbool(False)
-    if isinstance(a, SV) and isinstance(b, SV) and a.sort.name == b.sort.name and isinstance(a.sort, (Opaque, BoolSort)):
+    if isinstance(a, SV) and isinstance(b, SV) and a.sort.name == b.sort.name and (isinstance(a.sort, (Opaque, BoolSort)) or hasattr(a.sort, 'fields')):
       return a.t == b.t
     if isinstance(a, bool) and isinstance(b, bool):
       return zbool(a == b)
@@ -421,10 +432,10 @@ class Ops:
     i = z3.Int(fresh_name('i'))
     la, lb = s.len(a.t), s.len(b.t)
     self.assume(s.len(r) == la + lb)
-    self.assume(z3.ForAll([i], z3.Implies(z3.And(i >= 0, i < la), s.get(r, i) == s.get(a.t, i)), patterns=[s.get(r, i)]))
-    self.assume(z3.ForAll([i], z3.Implies(z3.And(i >= la, i < la + lb), s.get(r, i) == s.get(b.t, i - la)), patterns=[s.get(r, i)]))
+    self.assume(qforall([i], z3.Implies(z3.And(i >= 0, i < la), s.get(r, i) == s.get(a.t, i)), patterns=[s.get(r, i)]))
+    self.assume(qforall([i], z3.Implies(z3.And(i >= la, i < la + lb), s.get(r, i) == s.get(b.t, i - la)), patterns=[s.get(r, i)]))
     # reverse-direction triggers so facts about b's elements reach r
-    self.assume(z3.ForAll([i], z3.Implies(z3.And(i >= 0, i < lb), s.get(r, i + la) == s.get(b.t, i)), patterns=[s.get(b.t, i)]))
+    self.assume(qforall([i], z3.Implies(z3.And(i >= 0, i < lb), s.get(r, i + la) == s.get(b.t, i)), patterns=[s.get(b.t, i)]))
     return SV(s, r)
 
   def seq_slice(self, a, lo, hi):
@@ -442,7 +453,7 @@ class Ops:
     i = z3.Int(fresh_name('i'))
     ln = z3.If(hi_ > lo_, hi_ - lo_, 0)
     self.assume(s.len(r) == ln)
-    self.assume(z3.ForAll([i], z3.Implies(z3.And(i >= 0, i < ln), s.get(r, i) == s.get(a.t, i + lo_)), patterns=[s.get(r, i)]))
+    self.assume(qforall([i], z3.Implies(z3.And(i >= 0, i < ln), s.get(r, i) == s.get(a.t, i + lo_)), patterns=[s.get(r, i)]))
     return SV(s, r)
 
   def seq_map_coerce(self, v, sort):
@@ -451,7 +462,7 @@ class Ops:
     src = v.sort
     self.assume(sort.len(r) == src.len(v.t))
     el = self.coerce(SV(src.elem, src.get(v.t, i)), sort.elem)
-    self.assume(z3.ForAll([i], z3.Implies(z3.And(i >= 0, i < src.len(v.t)), sort.get(r, i) == el.t), patterns=[sort.get(r, i)]))
+    self.assume(qforall([i], z3.Implies(z3.And(i >= 0, i < src.len(v.t)), sort.get(r, i) == el.t), patterns=[sort.get(r, i)]))
     return SV(sort, r)
 
   def seq_index(self, a, i, safety=True):
@@ -470,8 +481,8 @@ class Ops:
     e = z3.Const(fresh_name('e'), s.elem.z3())
     i = z3.Int(fresh_name('i'))
     idx = z3.Function(fresh_name('idx'), s.elem.z3(), z3.IntSort())
-    self.assume(z3.ForAll([i], z3.Implies(z3.And(i >= 0, i < s.len(v.t)), z3.Select(r, s.get(v.t, i))), patterns=[s.get(v.t, i)]))
-    self.assume(z3.ForAll([e], z3.Implies(z3.Select(r, e), z3.And(idx(e) >= 0, idx(e) < s.len(v.t), s.get(v.t, idx(e)) == e)), patterns=[z3.Select(r, e)]))
+    self.assume(qforall([i], z3.Implies(z3.And(i >= 0, i < s.len(v.t)), z3.Select(r, s.get(v.t, i))), patterns=[s.get(v.t, i)]))
+    self.assume(qforall([e], z3.Implies(z3.Select(r, e), z3.And(idx(e) >= 0, idx(e) < s.len(v.t), s.get(v.t, idx(e)) == e)), patterns=[z3.Select(r, e)]))
     return SV(S, r)
 
   # ---- arithmetic / comparison -------------------------------------------------------------
@@ -509,6 +520,21 @@ class Ops:
         return SV(a.sort, z3.SetIntersect(a.t, bb.t))
     if name == 'Mult' and isinstance(a, PyTuple) and isinstance(b, int):
       return PyTuple(tuple(a) * b)
+    if name == 'Mult' and isinstance(a, SV) and isinstance(a.sort, SeqOf):
+      # [x] * n : n copies of the single element
+      s_ = a.sort
+      one = z3.simplify(s_.len(a.t))
+      ln = None
+      for f in self.pc:
+        pass
+      if not (self.entails(s_.len(a.t) == 1)):
+        raise OutsideSubset('sequence repetition of a non-singleton')
+      n = self.coerce(b, INT).t
+      r = s_.const('rep')
+      i = z3.Int(fresh_name('i'))
+      self.assume(s_.len(r) == z3.If(n > 0, n, 0))
+      self.assume(qforall([i], z3.Implies(z3.And(i >= 0, i < n), s_.get(r, i) == s_.get(a.t, 0)), patterns=[s_.get(r, i)]))
+      return self.new_box(SV(s_, r))
     if isinstance(a, (int, float)) and isinstance(b, (int, float)) and not isinstance(a, bool) and not isinstance(b, bool):
       import operator
       pyop = {'Add': operator.add, 'Sub': operator.sub, 'Mult': operator.mul, 'FloorDiv': operator.floordiv, 'Mod': operator.mod}.get(name)
